@@ -46,6 +46,9 @@ def sources(fn):
             src[c.dest["l"]] = "integer converted from a template value (%s)" % n.split("::")[-2][-20:]
         elif n in VALUE_INT_SOURCES and re.search(r"(%s)" % "|".join(INT_TYPES), dt):
             src[c.dest["l"]] = "result of %s" % n.split("::")[-1]
+        elif n == "core::slice::<impl [T]>::len" and fn.loc.f.endswith(BUILTIN_FILES) and c.args and any(
+                o.kind == "arg" and "[minijinja::value::Value]" in fn.locals[o.arg].get("s", "") for o in flow.origins(fn, c.args[0])):
+            src[c.dest["l"]] = "number of call arguments (`args.len()`)"
         elif n.endswith("ArgType<'a>>::from_value") and re.search(r"Result<(?:core::option::Option<)?(%s)" % "|".join(INT_TYPES), dt):
             src[c.dest["l"]] = "argument conversion"
     # fields of Span / tokenizer counters
@@ -119,13 +122,62 @@ def hazards(fn):
         return out
     for bb, term in query.asserts(fn):
         descs = []
-        for o in term["ops"]:
+        ops = list(term["ops"])
+        if term["kind"].startswith(("DivisionByZero", "RemainderByZero")):
+            # the operand that matters is the divisor: the assert condition is `divisor == 0`
+            cp = op_place(term.get("cond", {}))
+            if cp is not None and "p" not in cp:
+                for d in flow.whole_defs(fn, cp["l"]):
+                    if d.kind == "stmt" and d.rv["k"] == "bin" and d.rv["op"] == "Eq":
+                        ops.append(d.rv["a"])
+        for o in ops:
             p = op_place(o)
             if p is not None and p["l"] in t:
                 descs.append(t[p["l"]])
         if descs:
             out.append((bb, term["kind"], descs, term["ops"]))
     return out
+
+
+def divisor_of(fn, term):
+    cp = op_place(term.get("cond", {}))
+    if cp is not None and "p" not in cp:
+        for d in flow.whole_defs(fn, cp["l"]):
+            if d.kind == "stmt" and d.rv["k"] == "bin" and d.rv["op"] == "Eq":
+                return d.rv["a"]
+    return None
+
+
+def nonzero_guard(fn, bb, divisor):
+    """the division at bb is control-dependent on a test that makes the divisor non-zero: a comparison of (a value with
+    the same roots as) the divisor with 0 / > 0, or `is_empty()` false on the slice whose length it is"""
+    if divisor is None:
+        return None
+    roots = {o.key() for o in flow.origins(fn, divisor)}
+    len_recv = set()
+    for o in flow.origins(fn, divisor):
+        if o.kind == "call" and o.call.name.endswith("::len") and o.call.args:
+            len_recv |= {x.key() for x in flow.origins(fn, o.call.args[0])}
+    for (sb, taken) in flow.guards(fn, bb):
+        cd = flow.cond_of(fn, sb)
+        side = flow.bool_true_labels(taken)
+        if side is None:
+            continue
+        truth = (side != cd.neg)
+        if cd.kind == "call" and cd.call.name.endswith("::is_empty") and cd.call.args and not truth:
+            if {x.key() for x in flow.origins(fn, cd.call.args[0])} & len_recv:
+                return "!is_empty()"
+        if cd.kind == "bin" and cd.rv["op"] in ("Eq", "Ne", "Gt", "Lt", "Ge", "Le"):
+            from .facts import const_int
+            a_r = {o.key() for o in flow.origins(fn, cd.rv["a"])}
+            kb = const_int(cd.rv["b"])
+            if (a_r & roots) and kb is not None:
+                op = cd.rv["op"]
+                if (op == "Eq" and kb == 0 and not truth) or (op == "Ne" and kb == 0 and truth) or \
+                        (op == "Gt" and kb >= 0 and truth) or (op == "Ge" and kb >= 1 and truth) or \
+                        (op == "Lt" and kb <= 1 and not truth) or (op == "Le" and kb <= 0 and not truth):
+                    return "compared with %d" % kb
+    return None
 
 
 def comparison_guards(fn, bb, operand_locals):
